@@ -251,3 +251,31 @@ Print Assumptions valid_dense_data_is_source.
 Theorem valid_data_is_source : forall j, gen_valid_data j = valid_data j.
 Proof. exact valid_data_bridge. Qed.
 Print Assumptions valid_data_is_source.
+(* _valid_id / _valid_metadata (inlined in the hand-written axis_loop) *)
+Theorem valid_id_is_source : forall r, gen_valid_id r =
+  (v <- py_getitem r (K "id") ;; if py_truthy v then ROk None else ROk (Some [MSG_ID_EMPTY])).
+Proof. exact valid_id_unfold. Qed.
+Print Assumptions valid_id_is_source.
+Theorem valid_metadata_is_source : forall r, gen_valid_metadata r =
+  (md <- py_getitem r (K "metadata") ;; if is_null md || is_obj md then ROk None else ROk (Some [MSG_MD])).
+Proof. exact valid_metadata_unfold. Qed.
+Print Assumptions valid_metadata_is_source.
+(* _valid_rows / _valid_columns: the source's loop over the records with its inner loop over
+   [('id', _valid_id), ('metadata', _valid_metadata)] and the set of IDs seen = axis_loop *)
+Theorem valid_rows_is_source : forall j, gen_valid_rows j = valid_rows j.
+Proof. exact valid_rows_bridge. Qed.
+Print Assumptions valid_rows_is_source.
+Theorem valid_columns_is_source : forall j, gen_valid_columns j = valid_columns j.
+Proof. exact valid_columns_bridge. Qed.
+Print Assumptions valid_columns_is_source.
+(* _validate_json: the loop over the twelve required keys (in the source's order, with the
+   source's validators) and the shape cross-check; the source keeps valid_table and report_lines
+   separately, and valid_table is True exactly when no line was reported *)
+Theorem validate_json_is_source : forall j,
+  gen_validate_json j = (r <- validate_json_report j ;; ROk (match r with [] => true | _ => false end, r)).
+Proof. exact validate_json_bridge. Qed.
+Print Assumptions validate_json_is_source.
+Theorem validate_json_verdict_is_source : forall j,
+  validate_json j = match gen_validate_json j with ROk (true, _) => true | _ => false end.
+Proof. exact validate_json_verdict_bridge. Qed.
+Print Assumptions validate_json_verdict_is_source.
